@@ -24,6 +24,8 @@ def mkLeaf (kind : String) : Option Cert :=
   | "foreign" => some base
   | "ipin" => some { base with cn := "role1", ipRestricted := true, ipVerdict := .inside }
   | "ipout" => some { base with cn := "role1", ipRestricted := true, ipVerdict := .outside }
+  | "ipxff" | "ipxri" => some { base with cn := "role1", ipRestricted := true, ipVerdict := .outside }
+  | "ipinhdr" => some { base with cn := "role1", ipRestricted := true, ipVerdict := .inside }
   | "iperr" => some { base with cn := "role1", ipRestricted := true, ipVerdict := .error }
   | "ipnoauto" => some { base with cn := "mallory", ipRestricted := true, ipVerdict := .inside }
   | _ => none
